@@ -134,6 +134,33 @@ def gen(rng, cfg, big):
     return cases, tags
 
 
+def ctor_variants(rng, cfg, cases, tags, n):
+    """the other constructors: GearTrain::with_ratio(Quantity) (must behave as with_ratio_raw for a dimensionless ratio and
+    panic for any other unit when checking is on) and Differential::new() (= with_distrust(Equal)).
+    Returns (variant case, reference case or None) pairs; the implementation must give equal outputs on each pair."""
+    pairs = []
+    idx = [i for i, t in enumerate(tags) if t in ("gear", "differential")]
+    rng.shuffle(idx)
+    for i in idx:
+        if len(pairs) >= n: break
+        c = cases[i]
+        nfree, devs, ops, nt = parse_ops(c)
+        enc = devs[0][0]
+        if enc[0] == 2:
+            new = [9, enc[1], 0, 0]
+        elif enc[0] == 4 and enc[1] == 3:
+            new = [10]
+        else:
+            continue
+        flat = [x for o in ops for x in o]
+        pairs.append((c[:5] + new + [len(ops)] + flat, c))
+    for _ in range(max(4, n // 10)):
+        u = (rng.randint(-2, 2), rng.randint(-2, 2))
+        if u == (0, 0): u = (1, 0)
+        pairs.append((world_case(cfg, 0, [[9, f2b(2.0), u[0], u[1]]], [[3, 0, 5] + rstate(rng), [7], [5, 0], [7]]), None))
+    return pairs
+
+
 def run(chk, replay=None):
     proof = proof_check(PID)
     drv = build_driver(); exe = build_harness("devices"); cfg = harness_config(exe)
@@ -145,6 +172,20 @@ def run(chk, replay=None):
     big = chk.tier != "quick"
     cases, tags = gen(rng, cfg, big)
     correspondence(chk, cases, tags, exe, drv, okb=okb, describe=lambda c, o: {"devices": parse_ops(c)[1], "ops": parse_ops(c)[2][:12], "output_head": o[:40]})
+    pairs = ctor_variants(rng, cfg, cases, tags, 150 if not big else 3000)
+    vimpl, _ = correspondence(chk, [p[0] for p in pairs], ["ctor:" + ("gear-with-ratio" if p[0][5] == 9 else "differential-new") for p in pairs], exe, drv)
+    ref = run_sharded(exe, [p[1] for p in pairs if p[1] is not None])
+    k = 0
+    for (v, r), vo in zip(pairs, vimpl):
+        if r is None:
+            if cfg["chk"] and vo != [99]:
+                chk.violation("GearTrain::with_ratio accepted a ratio that is not dimensionless although checking is on", {"case": v, "impl": vo}, True)
+            continue
+        if vo != ref[k]:
+            chk.violation("a device built by %s behaves differently from the same device built by the other constructor" % ("GearTrain::with_ratio" if v[5] == 9 else "Differential::new"),
+                          {"case": v, "reference_case": r, "impl": vo, "impl_reference": ref[k]}, True)
+        k += 1
+    chk.cov["constructor_variant_pairs"] = len(pairs)
     chk.cov["exhaustive_part"] = "per device: every subset of its terminals connected to an external terminal x every subset of external terminals holding data (devices with <= 3/4 terminals; sampled above), four differential trust modes, axle sizes 0..6, tooth lists of length 0..6"
     chk.notes.append("projection / constraint within rounding: measured with tolerance 8*2^-22*scale in exact rationals against the reads taken just before the update; exact facts (inverter negation, axle equality, time stamps, frame) are checked exactly")
     if not proof["ok"] and not chk.violations:
